@@ -509,7 +509,9 @@ func (s *storage) cleanupArchetypes(target Entity) {
 			table := &s.tables[tables.tables[i]]
 
 			for _, rel := range table.relationIDs {
-				if rel.target.id == target.id {
+				// Also detach targets that died in the same batch removal,
+				// as they can't be used for the new table.
+				if rel.target.id == target.id || (!rel.target.IsZero() && !s.entityPool.Alive(rel.target)) {
 					newRelations = append(newRelations, relationID{component: rel.component, target: Entity{}})
 				}
 			}
